@@ -10,6 +10,39 @@ import re
 FALSE_WORDS = {"false", "0", "no", "off", "f", "n"}
 SPECIAL_CONDS = {"complete", "completed", "expired", "success", "failure", "no response"}
 BLOCK_TYPES = {"begin_for", "begin_block", "end_for", "end_block"}
+# the harness's own reading of which column carries the main argument of a row when the sheet spells the
+# columns out instead of using `message_text` (types without an entry have no main argument)
+MAINARG_FIELD = {
+    "send_message": "mainarg_message_text", "save_value": "mainarg_value", "save_flow_result": "mainarg_value",
+    "add_contact_urn": "mainarg_value", "set_contact_channel": "mainarg_value", "set_contact_language": "mainarg_value",
+    "set_contact_name": "mainarg_value", "set_contact_status": "mainarg_value", "set_contact_timezone": "mainarg_value",
+    "add_to_group": "mainarg_groups", "remove_from_group": "mainarg_groups", "split_by_group": "mainarg_groups",
+    "go_to": "mainarg_destination_row_ids", "call_webhook": "webhook.body", "transfer_airtime": "mainarg_dict",
+    "start_new_flow": "mainarg_flow_name", "insert_as_block": "mainarg_flow_name", "split_by_value": "mainarg_expression",
+    "begin_for": "mainarg_iterlist",
+}
+# rows whose edges are attached at once (`_add_row_edge` → `add_exit` on the source); no_op / begin_… rows only
+# remember their parent edges
+OUTCOME_SRC = {"start_new_flow": "flow", "call_webhook": "hook", "transfer_airtime": "hook"}
+NOT_PLAIN = BLOCK_TYPES | {"go_to", "hard_exit", "loose_exit", "no_op", "insert_as_block"}
+
+
+def has_message_text(sh) -> bool:
+    return "message_text" in sh["h"]
+
+
+def with_message_text(sh):
+    """a flow sheet that spells the main-argument columns out, re-read as if it had a `message_text` column
+    (so that the rest of this module reads one shape); other sheets unchanged"""
+    if has_message_text(sh) or not any(h.startswith("mainarg_") or h == "webhook.body" for h in sh["h"]):
+        return sh
+    rows = []
+    for r in sh["rows"]:
+        q = dict(r)
+        f = MAINARG_FIELD.get(q.get("type", "").strip())
+        q["message_text"] = q.get(f, "") if f else ""
+        rows.append(q)
+    return {"h": list(sh["h"]), "rows": rows, "mt": False}
 
 
 def split1(s: str) -> list[str]:
@@ -126,12 +159,20 @@ def _and(a, b):
 # ------------------------------------------------------------------ rows → model rows
 
 
-def probes_of_row(row, ctx):
+def _edge_probes(e, src_of):
+    """one edge as `_add_row_edge` treats it: the source is looked up, then `add_exit` on it"""
+    src = src_of(e["from"])
+    more = bool(e["condition_var"] or e["condition_type"] or e["condition_name"])
+    return [{"p": "from", "v": e["from"]}, {"p": "outcome", "src": src, "v": e["condition"], "more": more}]
+
+
+def probes_of_row(row, ctx, src_of=lambda _id: ""):
     """detectors of one row in the order the code reaches them (Probe0 / insert)"""
-    t = row.get("type", "")
+    t = row.get("type", "").strip()
     edges = edge_lists(row)
     starting = len(edges) == 1 and edges[0]["from"] == "start"
     from_probes = [{"p": "from", "v": e["from"]} for e in edges]
+    now_probes = [p for e in edges for p in _edge_probes(e, src_of)]
     if t == "begin_for":
         return [{"p": "loopvar", "v": split1(row.get("loop_variable", ""))}] + ([] if starting else from_probes)
     if t == "begin_block":
@@ -143,15 +184,17 @@ def probes_of_row(row, ctx):
         d = dests * len(edges) if len(dests) == 1 else dests
         ps = [{"p": "arity", "e": len(edges), "d": len(dests)}]
         for e, dst in zip(edges, d):
-            ps += [{"p": "target", "v": dst}, {"p": "from", "v": e["from"]}]
+            ps += [{"p": "target", "v": dst}] + _edge_probes(e, src_of)
         return ps
-    if t in ("hard_exit", "loose_exit", "no_op"):
+    if t == "no_op":
         return from_probes
+    if t in ("hard_exit", "loose_exit"):
+        return now_probes
     if t == "insert_as_block":
         return [{"p": "insert", "f": ctx.inst(row.get("message_text", "").strip(), row.get("data_sheet", "").strip(),
                                                row.get("data_row_id", "").strip(), row.get("template_arguments", ""),
-                                               "", nested=True)}] + from_probes
-    ps = []
+                                               "", nested=True)}] + now_probes
+    ps = [{"p": "rowtype", "v": t}]
     if t == "send_message":
         ps.append({"p": "text", "v": row.get("message_text", "").strip()})
     elif t == "save_value":
@@ -162,18 +205,38 @@ def probes_of_row(row, ctx):
         h = split2(row.get("webhook.headers", ""))
         ps.append({"p": "webhook", "m": row.get("webhook.method", "").strip(), "h": as_list(h)})
     for e in edges:
-        ps.append({"p": "from", "v": e["from"]})
+        ps += _edge_probes(e, src_of)
         if e["condition"] and e["condition"].lower() not in SPECIAL_CONDS:
             ps.append({"p": "cat", "v": e["condition_name"] or e["condition"].title()})
     return ps
 
 
-def model_rows(rows, ctx):
+def model_rows(rows, ctx, mt=True, unsupported=None):
+    """`mt`: the sheet has a `message_text` column (the row parser then needs a main-argument field for every row type)"""
     out = []
-    for r in rows:
+    st = row_status(rows)
+    idtype = {}          # row id -> type of the plain row that registered it last
+    for i, r in enumerate(rows):
         inc = include_if(r.get("include_if", ""))
-        t = r.get("type", "")
-        m = {"t": t, "id": r.get("row_id", "").strip(), "inc": inc is not False, "probes": probes_of_row(r, ctx)}
+        t = r.get("type", "").strip()
+
+        def src_of(fr, i=i):
+            """kind of the exit node an edge with this `from` cell leaves: "flow" / "hook" / "" """
+            if fr == "start":
+                return ""
+            if fr:
+                return OUTCOME_SRC.get(idtype.get(fr, ""), "")
+            # blank: the most recent node group.  NOT resolved here (kind ""): the model records uuids after all flows,
+            # the code while it reads the row, so a start_new_flow row followed by a row that continues from it would be
+            # ordered wrongly against a uuid conflict on that row; the injectors name their source rows
+            return ""
+
+        m = {"t": t, "id": r.get("row_id", "").strip(), "inc": inc is not False, "probes": probes_of_row(r, ctx, src_of), "mt": mt}
+        for p in m["probes"]:
+            if p.get("p") == "outcome" and p["src"] and ("{" in p["v"] or not p["v"].isascii()) and unsupported is not None:
+                unsupported.append("templated / non-ASCII condition on an outcome edge")
+        if st[i]["eval"] is not False and t not in NOT_PLAIN and m["id"]:
+            idtype[m["id"]] = t
         if t == "begin_for" and "{" not in r.get("message_text", "") and r.get("message_text", "").strip() == "":
             m["empty"] = True
         out.append(m)
@@ -186,7 +249,7 @@ def model_rows(rows, ctx):
 class Abstraction:
     def __init__(self, wb):
         self.wb = wb
-        self.sheets = wb["sheets"]
+        self.sheets = {n: with_message_text(sh) for n, sh in wb["sheets"].items()}
         self.index = []          # model IndexRow list
         self.create_rows = []
         self.reg = {}            # data sheet name -> list of ids
@@ -223,6 +286,11 @@ class Abstraction:
                 continue
             t = row.get("type", "").strip()
             names = split1(row.get("sheet_name", ""))
+            if t != "data_sheet" and len(names) != 1:
+                # `len(row.sheet_name) != 1` precedes the dispatch on the type
+                self.index.append({"k": "other", "type": t, "n": len(names)})
+                self.dead = True
+                return
             if t == "content_index":
                 self.index.append({"k": "ref", "name": names[0]})
                 if names[0] not in self.sheets:
@@ -261,8 +329,14 @@ class Abstraction:
                     return
                 self.trigger_sheets[names[0]] = [r.get("flow", "").strip() for r in self.sheets[names[0]]["rows"]]
                 self._dup("trigger sheet", names[0], [names[0]], (name, row_no))
+            elif t == "ignore_row":
+                self.index.append({"k": "other", "type": t, "n": len(names)})
+                self.unsupported.append("index row type " + t)      # its effect on the definitions is not read here
             else:
-                self.unsupported.append("index row type " + t)
+                # the `else` of the dispatch: "invalid type" — no sheet is looked up; the model stops here
+                self.index.append({"k": "other", "type": t, "n": len(names)})
+                self.dead = True
+                return
 
     # -- position classes: is the thing defined here defined again by a later index row / already by an earlier one
     LATER, EARLIER, BOTH = "redefined by a later row", "redefines an earlier row", "redefines and is redefined (or shared by both)"
@@ -373,10 +447,9 @@ class Abstraction:
         else:
             if sheet_name not in self.used_sheets:
                 self.used_sheets.append(sheet_name)
-            if nested:
-                rows = model_rows(self.sheets[sheet_name]["rows"], _NoNest(self))
-            else:
-                rows = model_rows(self.sheets[sheet_name]["rows"], self)
+            sh = self.sheets[sheet_name]
+            rows = model_rows(sh["rows"], _NoNest(self) if nested else self, mt=sh.get("mt", True) and has_message_text(sh),
+                              unsupported=self.unsupported)
             self.collect_uuids(self.sheets[sheet_name]["rows"])
         args = as_list(split2(args_cell))
         args = [a if isinstance(a, str) else ";".join(a) for a in args]
